@@ -2,6 +2,7 @@ package sim
 
 import (
 	"bytes"
+	"context"
 	"fmt"
 	"runtime/debug"
 	"sort"
@@ -536,6 +537,30 @@ func (w *World) doByz() {
 		srcEntries[e.GetHash().String()] = e
 	}
 	heads := hashSeq(src.Heads())
+	if r.Choose("byz-foreign-behind-head", 5) == 0 && w.Codec != "pb" {
+		// a correctly signed, permitted entry of ANOTHER log, reachable only behind a (valid) head of this log
+		fe, err := entry.CreateEntryWithIO(w.ctx, w.St, s.W.ID, &entry.Entry{LogID: "other-log", Payload: w.payload(),
+			Clock: entry.NewLamportClock(s.W.ID.PublicKey, 1)}, nil, w.IO)
+		if err != nil {
+			r.Harness("foreign entry: %v", err)
+		}
+		var nx []cid.Cid
+		for _, h := range heads {
+			nx = append(nx, w.Cids[h])
+		}
+		nx = append(nx, fe.GetHash())
+		he, err := entry.CreateEntryWithIO(w.ctx, w.St, s.W.ID, &entry.Entry{LogID: w.LogID, Payload: w.payload(), Next: nx,
+			Clock: entry.NewLamportClock(s.W.ID.PublicKey, src.Clock.GetTime()+1)}, nil, w.IO)
+		if err != nil {
+			r.Harness("crafted head: %v", err)
+		}
+		w.Cids[fe.GetHash().String()] = fe.GetHash()
+		w.register(he)
+		srcEntries[fe.GetHash().String()] = fe
+		srcEntries[he.GetHash().String()] = he
+		heads = []string{he.GetHash().String()}
+		r.Fault("valid-foreign-entry-behind-head")
+	}
 	cand := w.modelDifference(srcEntries, heads, rcv.Set)
 	others := Writers()
 	var badNames []string
@@ -940,4 +965,58 @@ func (w *World) doRebuild() {
 		w.R.Probe("rebuilt-multi-head-log")
 	}
 	w.R.Logf("rebuild n%d from entries (heads given: %v)", n.Idx, withHeads)
+}
+
+// doPartial (C02 only, on scratch objects): a log obtained by a length-limited load, then merged
+// without bound with other replicas. The state is outside the closed-log world of the other
+// oracles, so only what C02 states literally is checked, on the entries the log really holds:
+// its heads are exactly its entries that none of its entries names as a predecessor.
+func (w *World) doPartial() {
+	src, other := w.pickUp("partial-src"), w.pickUp("partial-other")
+	r := w.R
+	limPick := r.Choose("partial-limit", 1<<16)
+	conc := r.Choose("load-conc", 6)
+	if src == nil || other == nil || len(src.Set) < 2 || w.Codec == "pb" || !w.P.Check["C02"] {
+		return
+	}
+	heads := src.Log.Heads().Slice()
+	lim := 1 + limPick%(len(src.Set)-1)
+	var l *ipfslog.IPFSLog
+	var err error
+	w.driven(func(ctx context.Context) {
+		l, err = ipfslog.NewFromEntry(ctx, w.St, src.W.ID, append([]iface.IPFSLogEntry(nil), heads...), w.logOpts(), &entry.FetchOptions{Concurrency: conc, Length: &lim})
+	})
+	if err != nil {
+		r.Violate("C02:load-error", "length-limited load failed with no fault injected: %v", err)
+	}
+	check := func(when string) {
+		es := hashSet(l.GetEntries())
+		named := map[string]bool{}
+		for h := range es {
+			for _, nx := range w.M.Reg[h].Next {
+				named[nx] = true
+			}
+		}
+		var want []string
+		for h := range es {
+			if !named[h] {
+				want = append(want, h)
+			}
+		}
+		sort.Strings(want)
+		if got := sortedCopy(hashSeq(l.Heads())); joinS(got) != joinS(want) {
+			r.Violate("C02:heads-partial", "%s: a partially loaded log (limit %d of %d) has heads %v, its unreferenced entries are %v", when, lim, len(src.Set), w.M.Names(got), w.M.Names(want))
+		}
+	}
+	check("after the length-limited load")
+	if _, err := l.Join(w.clone(other, true), -1); err != nil {
+		r.Violate("C02:join-error", "merge into a partially loaded log failed: %v", err)
+	}
+	check("after an unbounded merge")
+	if _, err := l.Join(w.clone(src, true), -1); err != nil {
+		r.Violate("C02:join-error", "merge into a partially loaded log failed: %v", err)
+	}
+	check("after merging the full source")
+	r.Probe("partially-loaded-log-merged")
+	r.Logf("partial n%d limit=%d then merged with n%d and n%d", src.Idx, lim, other.Idx, src.Idx)
 }
